@@ -5,6 +5,8 @@ ROOT = os.path.dirname(os.path.dirname(os.path.abspath(__file__)))
 TECH = "bounded symbolic execution of the real Go code (own go/ssa -> QF_BV SMT-LIB2 executor; z3 5.1 primary, z3 4.8.12 cross-check on verdict queries; counterexamples replayed natively)"
 TRUST = "Trusted: the gosx SSA interpreter and term simplifier (validated by native replay of every counterexample, by reachability witnesses and by a second solver on verdict queries), the SMT solvers, Go's compiler for the native replay. "
 CHECKS = {
+ "C03": dict(text="A channel table of 1-3 channels with arbitrary pairwise-distinct names, an arbitrary allow-list subset and one or two arbitrary requested protocol ids run through the real Startup of the socket, packet, stdio, http-endpoint and dns servers (which computes the endpoint's filtered list), the real accept path, AcceptConnection, HandleConnection, acceptStream, multiplexToUpstream, go-multistream's Negotiate and muxHandler; asserted: OpenConnection is called exactly once and only on the channel whose name equals the requested id minus the leading slash and which the endpoint's allow-list admits, every other id is answered na and opens nothing.",
+             note="Names and ids of 0-2 (3 thorough) bytes; listen/accept, smux, websocket upgrade, chi, DNS I/O are contract stubs; channels are counting fakes and PipeData is stubbed; dns server only up to its filtered list; the client-side SelectProtoOrFail is outside; no native replay (engine concrete replay)."),
  "C04": dict(text="Client: the real Connect of every upstream type (socket, stdio, packet, websocket; plain and TLS schemes) runs against a scripted server whose capability list carries 0-2 arbitrary bytes and whose statuses vary, with require-security on and off and a TLS stub whose handshake succeeds or fails symbolically; an application marker written through the installed connection must never reach a plaintext carrier in clear when security is required or StartTLS was offered on an insecure carrier, StartTLS is requested iff offered on an insecure carrier, failed handshakes give no session. Server: the real NewServerConnection for every certificate-manager state x carrier security x Security header with 0-3 arbitrary bytes: StartTLS advertised iff insecure carrier and certificate, a requested StartTLS yields a TLS-wrapped session reporting tls or no session, Secure() never true without TLS or a secure carrier.",
              note="crypto/tls, gorilla/websocket, net dialing are contract stubs (listed in evidence); that TLS encrypts is trusted; the DNS upstream's Connect (same tail after the DNS handshake) and the endpoint Startup TLS choice (checked under C18) are outside this check; no native replay (engine concrete replay)."),
  "C05": dict(text="Configuration flow into crypto/tls: ClientConfig/ServerConfig.GetTlsConfig over every combination of configured material, flags and load outcomes (verification off only with the insecure flag, CA pools installed iff configured, ClientAuth = RequireAndVerifyClientCert iff require-client-cert); for every upstream kind the tls.Config reaching tls.Dial / the websocket dialer / StartTLS has InsecureSkipVerify equal to the flag (documented stdio+tls exception asserted as such), StartTLS ServerName equal to the upstream host name, and the UDP cipher key is derived from the URL secret (cipher iff secret non-empty).",
